@@ -15,7 +15,7 @@ ANCHORS = [("deap/gp.py", ["PrimitiveTree.__str__", "PrimitiveTree.from_string",
                            "PrimitiveSetTyped.addTerminal", "PrimitiveSetTyped.addADF", "compile", "compileADF"])]
 LEVEL = "partial"
 RULE = ("every primitive set (untyped with 0/1/2 arguments incl. renamed arguments, named terminals (also as the single node "
-        "of a zero-argument set), negative constants, anonymous constants equal by == but of different type / sign of zero, "
+        "of a zero-argument set), overlapping renamings (swap, 3-cycle, rename onto a freed name), negative constants, anonymous constants equal by == but of different type / sign of zero, "
         "ephemerals; strongly typed int/bool/float with a subclass pair and dyadic float constants; a two-level ADF family with 1- and 0-argument main sets, a zero-argument ADF set) x "
         "trees of height 0..6 from genFull/genGrow/genHalfAndHalf and from chains of the variation operators; for each tree: "
         "str vs strBuilder vs render, the source handed to eval vs compileSrc, re.split tokens vs tokens, from_string(str(t)) vs "
@@ -274,6 +274,24 @@ def b_u2r():
                    [("ten", 10)], rename={"ARG1": "x", "ARG0": "xy"})       # keywords NOT in positional order
 
 
+ASYM = [(f_sub, 2, "sub"), (f_add, 2, "add"), (f_neg, 1, "neg"), (f_ite, 3, "ite"), (f_lt, 2, "lt")]
+
+
+def b_u2s():
+    # overlapping renaming: the two arguments exchange their names
+    return untyped("u2s", 2, ASYM, [1, -2], rename={"ARG0": "ARG1", "ARG1": "ARG0"})
+
+
+def b_u3c():
+    # overlapping renaming: a 3-cycle rotation of the names
+    return untyped("u3c", 3, ASYM, [0, 3], rename={"ARG0": "ARG1", "ARG1": "ARG2", "ARG2": "ARG0"})
+
+
+def b_u3f():
+    # overlapping renaming: ARG2 takes the name ARG0 frees in the same call (keywords not in positional order)
+    return untyped("u3f", 3, ASYM, [1, -1], [("ten", 10)], rename={"ARG2": "ARG0", "ARG0": "z"})
+
+
 def b_u0():
     # zero arguments: compile returns a value; `seven` is a NAMED terminal (its .value is the name)
     return untyped("u0", 0, [(f_add, 2, "add"), (f_mul, 2, "mul"), (f_neg, 1, "neg"), (f_max3, 3, "max3")], [2, -3],
@@ -323,7 +341,7 @@ BUILDERS = {"u2": b_u2, "u2r": b_u2r, "u0": b_u0, "u1": b_u1,
             "tf": lambda: typed("tf", [float, int, bool], float, rename={"ARG2": "flag", "ARG0": "a"}),
             "tb": lambda: typed("tb", [], bool),
             "tf0": lambda: typed("tf0", [], float),          # zero-argument typed set whose root may be the named `q`
-            "u2m": b_u2m}
+            "u2m": b_u2m, "u2s": b_u2s, "u3c": b_u3c, "u3f": b_u3f}
 PSNAMES = sorted(BUILDERS)
 BUILDERS["u2x"] = b_u2x
 _cache = {}
